@@ -114,8 +114,11 @@ CLAIMS = {
              "field is proved to hold what was computed); `generate_passes_national` - every IBAN IBAN.generate "
              "returns for such a country is returned unchanged by IBAN(text, validate_bban=True); for every registry "
              "naming no method for the country and ALL component strings; `computingOk` discharged by kernel "
-             "evaluation for the 19 countries of the live tables. PARTIAL: seeded random draws (they funnel through "
-             "from_components, tied by the recorded-choice correspondence of C13) and parse -> rebuild are exercised "
+             "evaluation for the 19 countries of the live tables; `rebuild` - for every country with published "
+             "positions and every compact BBAN of the country's length that passes the national check, "
+             "from_components of the components read off it returns a BBAN of the same length that agrees at every "
+             "position covered by a component (live instance `live_rebuild`). PARTIAL: seeded random draws (they "
+             "funnel through from_components, tied by the recorded-choice correspondence of C13) are exercised "
              "dynamically, not proved.",
         design="7 (C09)",
         technique="Lean 4 proof (per-algorithm case analysis) + regenerated registration obligations + "
